@@ -111,7 +111,7 @@ CLAIMED = {
    category='proof',
    text='For every (year, status, statutory amount) in the site table the real line is executed symbolically: echo lines must return the published value on every return path for every status; deciding lines must compare the named amount with the published limit (condition atoms proved equivalent to amount <op> official by z3); multipliers must equal the published per-child amounts; 2023 threshold tables are compared member by member. Exhaustive over the finite triple space.',
    design_ref='DESIGN 4 C08',
-   note='A-ORACLE: contracts/official.py transcribed from the Rev. Procs and form instructions; contracts/statutory_sites.py says where each amount shows. Sites not in the table (recovery rebate worksheet, NC child deduction table, Schedule B 1,500, educator cap) are not covered yet.',
+   note='A-ORACLE: contracts/official.py transcribed from the Rev. Procs and form instructions; contracts/statutory_sites.py says where each amount shows. The site table now also covers the 2021 recovery-rebate phase-out amounts, the NC child-deduction table (every bracket and status), the Schedule B 1,500 thresholds and the Form 8959 triggers; the educator-expense cap and the 2021 ARPA child-credit amounts are not in the table.',
    technique='contract postconditions per statutory site discharged by symbolic execution + z3, ground comparison of threshold tables'),
  'C17': dict(
    category='proof',
